@@ -47,6 +47,7 @@ UNITS = {
     'V-TLFU': dict(engine='verus', overlay='v_tlfu.py', rlimit=60),
     'V-POW': dict(engine='verus', overlay='v_pow.py'),
     'V-SLFU': dict(engine='verus', overlay='v_slfu.py'),
+    'V-PR': dict(engine='verus', overlay='v_pr.py'),
     'K-PR': dict(engine='kani', files=['harness_lib.rs'], module={'harness_lib.rs': 'verif_hooks::harness'},
                  n=dict(quick=2, thorough=2), bound='none (loop-free, payloads K=u8, V=u16 fully symbolic)',
                  functions=[dict(function='PutResult::{eq, clone, Copy}', file='src/lib.rs', line=0, props=['C12'])],
@@ -183,7 +184,7 @@ def _P(units, level, text, note, technique, quick=None, thorough_extra=(), **kw)
     d.update(kw)
     return d
 
-COST_ORDER = ['V-ROW', 'V-BLOOM', 'V-TLFU', 'V-POW', 'V-SLFU', 'K-PR', 'K-SLFU', 'K-TLFU-CTOR', 'K-SKETCH', 'K-RAW', 'K-ITER', 'K-CB', 'K-LIFE', 'K-SEG', 'K-LEAK', 'K-2Q', 'K-WTLFU', 'K-ARC', 'K-LEAK-ARC']
+COST_ORDER = ['V-ROW', 'V-BLOOM', 'V-TLFU', 'V-POW', 'V-SLFU', 'V-PR', 'K-PR', 'K-SLFU', 'K-TLFU-CTOR', 'K-SKETCH', 'K-RAW', 'K-ITER', 'K-CB', 'K-LIFE', 'K-SEG', 'K-LEAK', 'K-2Q', 'K-WTLFU', 'K-ARC', 'K-LEAK-ARC']
 
 ALL_CACHES = ['K-RAW', 'K-SEG', 'K-2Q', 'K-ARC', 'K-WTLFU']
 
@@ -199,7 +200,7 @@ PROPERTIES = {
     'C09': _P(['K-ARC'], 'model_checking', KANI_LEVEL_TEXT + '. C09: ARC contract of put (T1/T2/B1/B2/new) with the p update formula and victim rule transcribed from the statement; 0 <= p <= size in the invariant; ghost trimming only constrained relationally.', KANI_NOTE, T_KANI),
     'C10': _P(['K-WTLFU'], 'model_checking', KANI_LEVEL_TEXT + '. C10: W-TinyLFU contract of put/get/get_mut/purge; the admission verdict is read from the real estimator in the pre-state (arbitrary sketch contents, seeds, doorkeeper).', KANI_NOTE + '; estimator instantiated small (rows <= 8 counters, one-word doorkeeper); its own contracts are C11', T_KANI),
     'C11': _P(['V-ROW', 'V-BLOOM', 'V-TLFU', 'V-POW', 'K-SKETCH', 'K-TLFU-CTOR'], 'proof', 'deductive proof (Verus, unbounded in hashes, widths, sample sizes and history length): real TinyLFU/Bloom/CountMinRow bodies against step contracts, then an induction over arbitrary histories against the exact aged-count model (never under-counts, <= 16, exact for a single key, 0 after clear, reset schedule, no false negatives, comparisons). The four closure-using CountMinSketch functions are contracted (external_body) in Verus and discharged on the real bodies by Kani for row widths <= 8 counters: those leaf obligations are bounded.', 'trusted: Verus/Z3; vstd specs of Vec/slice; assume_specification for <[T]>::fill; KeyHasher is a function of its argument; ln(x) in [-745, 0) for 0 < x < 1 (contract of the logarithm, supplied as a stub; the CBMC model of log is nondeterministic); < 2^64 doorkeeper insertions; sketch leaf functions bounded to width <= 8 (Kani); std sketch seeding not executed', T_VERUS + ' (leaf sketch functions: ' + T_KANI + ')'),
-    'C12': _P(ALL_CACHES + ['K-PR'], 'model_checking', KANI_LEVEL_TEXT + '. C12: relational postcondition of every put-like operation (result variant <-> change of the retained set); PutResult Eq/Clone/Copy structural for K=u8,V=u16 (loop-free, complete).', KANI_NOTE, T_KANI),
+    'C12': _P(ALL_CACHES + ['K-PR', 'V-PR'], 'model_checking', KANI_LEVEL_TEXT + '. C12: relational postcondition of every put-like operation (result variant <-> change of the retained set); PutResult Eq/Clone/Copy structural for K=u8,V=u16 (loop-free, complete); PutResult::eq additionally proved by Verus on the extracted body for ALL payload types K, V against vstd\'s PartialEq specification (unit V-PR; assumes V\'s equality symmetric, as PartialEq documents).', KANI_NOTE, T_KANI + ' + (PutResult::eq) ' + T_VERUS),
     'C13': _P(ALL_CACHES + ['K-ITER'], 'model_checking', KANI_LEVEL_TEXT + '. C13: postcondition "view unchanged" (order, values, capacities, p, estimator state) for every read-only operation; equal views give equal futures because every other contract is a function of the view.', KANI_NOTE + '; Debug::fmt not covered', T_KANI),
     'C14': _P(['K-ITER', 'K-2Q', 'K-ARC'], 'model_checking', KANI_LEVEL_TEXT + '. C14: iterator contracts with ghost cursors over the view under an arbitrary next/next_back schedule of len()+2 steps, for all ten iterator types; per-list accessor families of 2Q/ARC hand out the right list.', KANI_NOTE, T_KANI),
     'C15': _P(['K-CB'], 'model_checking', KANI_LEVEL_TEXT + '. C15: ghost log of callback invocations; each operation contract states exactly how the log grows.', KANI_NOTE + '; with_on_evict_cb (RandomState) checked with RandomState::new stubbed', T_KANI),
